@@ -111,7 +111,18 @@ def observe(lo, run, extra):
             if '/src/deep/' in tb.tb_frame.f_code.co_filename:
                 tb_in_agent = True
             tb = tb.tb_next
-    return {'result': norm(run.result), 'exc': (type(exc).__name__, norm(exc.args)) if exc is not None else None,
+    chain = []
+    e2, hops = exc, 0
+    while e2 is not None and hops < 6:      # the exception as the application's caller sees it: cause/context chain and the raising functions
+        tbf, tb = [], e2.__traceback__
+        while tb is not None:
+            if tb.tb_frame.f_code.co_filename == lo.path:
+                tbf.append((tb.tb_frame.f_code.co_name, tb.tb_lineno))
+            tb = tb.tb_next
+        chain.append((type(e2).__name__, norm(e2.args), e2.__suppress_context__, tuple(tbf)))
+        e2 = e2.__cause__ or e2.__context__
+        hops += 1
+    return {'result': norm(run.result), 'exc': ((type(exc).__name__, norm(exc.args)), tuple(chain)) if exc is not None else None,
             'out': norm(list(lo.out)), 'data': norm(lo.ns.get('DATA')), 'tb_in_agent': tb_in_agent, 'extra': extra,
             'process': process_state()}
 
